@@ -1,3 +1,103 @@
-import NmVerif.Basic
+import NmVerif.NN.PoolLemmas
+/-
+  C17 — neural-network routines equal their reference (PyTorch) definitions.
+
+  MODEL  NmVerif.NN.Conv (view::convnd pipeline), NmVerif.NN.Pool (index::shape_pool2d, slice_pool2d, pool2d window)
+  SPEC   NmVerif.NN.Spec (`outSize`, `poolOutSpec`, `specWindow`, `conv1dLoop` with `grpSpec`)
+  Floating-point tolerance is the harness's business; these theorems are about shapes and about which source
+  elements are combined.
+-/
 namespace NmVerif.Props.C17
+open NmVerif NmVerif.NN
+
+/-! ## pooling -/
+
+/-- `index::shape_pool2d` gives the standard extents on every axis pair, for any number of leading axes, in floor
+    mode and in ceil mode — on `PoolDom` (positive kernel that fits, positive stride, and in ceil mode the last
+    counted window starts inside the input; outside that domain see `pool_ceil_counterexample`). -/
+theorem pool_out_shape_eq_formula (lead : List Nat) (H W kh kw sh sw : Nat) (ceil : Bool)
+    (hH : PoolDom H kh sh ceil) (hW : PoolDom W kw sw ceil) :
+    shapePool2d (lead ++ [H, W]) [kh, kw] [sh, sw] ceil
+      = some (lead ++ [poolOutSpec H kh sh ceil, poolOutSpec W kw sw ceil]) := by
+  rw [shapePool2d_append, poolExtent_eq_spec hH, poolExtent_eq_spec hW]
+
+example : shapePool2d [2, 3, 5, 7] [2, 3] [2, 2] true = some [2, 3, 3, 3] := by decide
+example : PoolDom 5 2 2 true ∧ PoolDom 7 3 2 true := by decide
+
+/-- floor mode is exactly `⌊(n + 2·0 − 1·(k−1) − 1)/s⌋ + 1` -/
+theorem pool_out_shape_floor (n k s : Nat) : poolOutSpec n k s false = outSize n k s 0 1 := rfl
+
+/-- the ceil-mode correction never fires when `stride ≤ kernel`: the whole of that parameter range is in the domain -/
+theorem pool_dom_of_stride_le_kernel (n k s : Nat) (ceil : Bool) (hk : 0 < k) (hkn : k ≤ n) (hs : 0 < s) (hsk : s ≤ k) :
+    PoolDom n k s ceil := poolDom_of_stride_le_kernel ceil hk hkn hs hsk
+
+/-- known finding pool.ceil-window-outside: extent 4, kernel 1, stride 2, ceil mode — the code counts 3 windows,
+    the third starts at index 4 = outside; PyTorch gives 2. -/
+theorem pool_ceil_counterexample : poolExtent 4 1 2 true = 3 ∧ poolOutSpec 4 1 2 true = 2 ∧ ¬ PoolDom 4 1 2 true := by decide
+
+/-- the source elements `pool2d_t::operator()` hands to the reducer for output index `li ++ [i, j]` are exactly the
+    reference window (rows `s_h·i ≤ a < min(s_h·i + k_h, H)`, columns likewise — overhang clipped), in row-major order. -/
+theorem pool_elem_eq_window_reduce (lead li : List Nat) (H W kh kw sh sw i j : Nat) (ceil : Bool)
+    (hH : PoolDom H kh sh ceil) (hW : PoolDom W kw sw ceil)
+    (hidx : InShape (li ++ [i, j]) (lead ++ [poolExtent H kh sh ceil, poolExtent W kw sw ceil]))
+    (hli : InShape li lead) :
+    poolWindow (lead ++ [H, W]) [kh, kw] [sh, sw] (li ++ [i, j]) = some (specWindow li H W kh kw sh sw i j) := by
+  have hij : InShape [i, j] [poolExtent H kh sh ceil, poolExtent W kw sw ceil] := by
+    have := hidx
+    clear hidx
+    induction lead generalizing li with
+    | nil =>
+      cases li with
+      | nil => simpa using this
+      | cons a as => simp [InShape] at hli
+    | cons x xs ih =>
+      cases li with
+      | nil => simp [InShape] at hli
+      | cons a as =>
+        simp only [InShape] at hli
+        simp only [List.cons_append, InShape] at this
+        exact ih as hli.2 this.2
+  simp only [InShape] at hij
+  exact poolWindow_eq_spec hli hH.1 hW.1 (pool_start_lt hH hij.1) (pool_start_lt hW hij.2.1)
+
+example : poolWindow [2, 5, 5] [2, 2] [2, 2] [1, 2, 1] = some [[1, 4, 2], [1, 4, 3]] := by decide
+
+/-- every index of every window lies inside the input (the overhang of ceil mode is clipped, nothing is read
+    outside) and the window is non-empty -/
+theorem pool_window_in_bounds (lead li : List Nat) (H W kh kw sh sw i j : Nat) (ceil : Bool)
+    (hH : PoolDom H kh sh ceil) (hW : PoolDom W kw sw ceil)
+    (hidx : InShape (li ++ [i, j]) (lead ++ [poolExtent H kh sh ceil, poolExtent W kw sw ceil]))
+    (hli : InShape li lead) :
+    ∃ win, poolWindow (lead ++ [H, W]) [kh, kw] [sh, sw] (li ++ [i, j]) = some win
+      ∧ win ≠ [] ∧ ∀ x ∈ win, InShape x (lead ++ [H, W]) := by
+  refine ⟨_, pool_elem_eq_window_reduce lead li H W kh kw sh sw i j ceil hH hW hidx hli, ?_, specWindow_inShape hli⟩
+  have hij : sh * i < H ∧ sw * j < W := by
+    have h := pool_elem_eq_window_reduce lead li H W kh kw sh sw i j ceil hH hW hidx hli
+    have hij : InShape [i, j] [poolExtent H kh sh ceil, poolExtent W kw sw ceil] := by
+      have := hidx
+      clear hidx h
+      induction lead generalizing li with
+      | nil =>
+        cases li with
+        | nil => simpa using this
+        | cons a as => simp [InShape] at hli
+      | cons x xs ih =>
+        cases li with
+        | nil => simp [InShape] at hli
+        | cons a as =>
+          simp only [InShape] at hli
+          simp only [List.cons_append, InShape] at this
+          exact ih as hli.2 this.2
+    simp only [InShape] at hij
+    exact ⟨pool_start_lt hH hij.1, pool_start_lt hW hij.2.1⟩
+  intro hnil
+  have hmem : li ++ [sh * i, sw * j] ∈ specWindow li H W kh kw sh sw i j := by
+    unfold specWindow
+    simp only [List.mem_flatMap, List.mem_map, mem_rangeFrom]
+    exact ⟨sh * i, ⟨Nat.le_refl _, by have := hH.1; omega⟩, sw * j, ⟨Nat.le_refl _, by have := hW.1; omega⟩, rfl⟩
+  rw [hnil] at hmem
+  simp at hmem
+
+example : PoolDom 5 3 2 true ∧ poolExtent 5 3 2 true = 2 := by decide
+
 end NmVerif.Props.C17
